@@ -128,6 +128,9 @@ var c10Keys = map[string]c10Key{
 	"decimal-no-keyid":      {file: "decimal_priv.asc", pub: "decimal_pub"},
 	// the key file reached through a symbolic link (a mounted secret)
 	"expired-subkey":    {file: "GENSUB:expired", pub: "pubkey"},
+	// a protected key with two signing subkeys (a rotation in progress); the key id names the older / the newer one
+	"two-signing-subkeys-older": {file: "GEN2SUB:older", pub: "pubkey", givePass: "hunter2", passVar: "NFPM_PASSPHRASE"},
+	"two-signing-subkeys-newer": {file: "GEN2SUB:newer", pub: "pubkey", givePass: "hunter2", passVar: "FORMAT"},
 	"armored-symlink":   {file: "LINK:privkey_unprotected.asc", pub: "pubkey"},
 	"protected-symlink": {file: "LINK:privkey.asc", pub: "pubkey", givePass: "hunter2", passVar: "FORMAT"},
 	"pkcs1-symlink":     {file: "LINK:rsa_unprotected.priv", pub: "rsa_unprotected.pub", apk: true},
@@ -149,7 +152,7 @@ var c10Keys = map[string]c10Key{
 	"pem-garbage":               {file: "wrong_key_format.priv", pub: "rsa.pub", apk: true, wantFail: true},
 }
 
-var c10PGPKeys = []string{"expired-subkey", "armored-symlink", "protected-symlink", "subkey-only-with-passphrase", "armored-with-passphrase", "binary-with-passphrase", "armored-leading-blank", "armored-leading-text", "armored-crlf", "armored-trailing-text", "keyid-decimal", "decimal-no-keyid", "armored", "binary", "protected", "protected-binary", "subkey-only", "keyid-primary", "keyid-subkey", "keyid-primary-upper", "keyid-subkey-mixed", "wrong-passphrase", "no-passphrase", "multiple-keys", "keyid-invalid", "keyid-garbage-prefix", "keyid-garbage-suffix", "keyid-too-long", "key-missing"}
+var c10PGPKeys = []string{"two-signing-subkeys-older", "two-signing-subkeys-newer", "expired-subkey", "armored-symlink", "protected-symlink", "subkey-only-with-passphrase", "armored-with-passphrase", "binary-with-passphrase", "armored-leading-blank", "armored-leading-text", "armored-crlf", "armored-trailing-text", "keyid-decimal", "decimal-no-keyid", "armored", "binary", "protected", "protected-binary", "subkey-only", "keyid-primary", "keyid-subkey", "keyid-primary-upper", "keyid-subkey-mixed", "wrong-passphrase", "no-passphrase", "multiple-keys", "keyid-invalid", "keyid-garbage-prefix", "keyid-garbage-suffix", "keyid-too-long", "key-missing"}
 var c10APKKeys = []string{"pkcs1-with-passphrase", "pkcs1-with-format-passphrase", "pkcs1-then-public", "pkcs1-symlink", "encrypted-pem-dollar-pass", "encrypted-pem-padded-pass", "pkcs1", "pkcs8", "pkcs8-4096", "encrypted-pem", "encrypted-pem-general", "encrypted-pem-wrong", "pem-garbage"}
 
 // c10Payloads is the number of payload shapes (0 = empty).
@@ -404,8 +407,17 @@ func viaFn(c C10Case) bool { return strings.HasPrefix(c.Via, "signfn") }
 
 var c10PubName = "pubkey"
 
+// c10PubPath: the public keyring the verifiers use - a file of the keys directory, or (absolute name) one the harness
+// generated for this case.
+func c10PubPath(env *engine.Env, ext string) string {
+	if filepath.IsAbs(c10PubName) {
+		return c10PubName + ext
+	}
+	return keyPath(env, c10PubName+ext)
+}
+
 func pubKeyring(env *engine.Env) (openpgp.EntityList, error) {
-	f, err := os.Open(keyPath(env, c10PubName+".asc"))
+	f, err := os.Open(c10PubPath(env, ".asc"))
 	if err != nil {
 		return nil, err
 	}
@@ -482,7 +494,7 @@ func verifyDetached(env *engine.Env, data, sig []byte) (signerKeyID string, err 
 	if gpgv := env.Tool("gpgv"); gpgv != "" {
 		dp, rm1 := tmpFile(env, "c10.data", data)
 		sp, rm2 := tmpFile(env, "c10.sig", sig)
-		gerr := gpgvGood(gpgv, "--keyring", keyPath(env, c10PubName+".gpg"), sp, dp)
+		gerr := gpgvGood(gpgv, "--keyring", c10PubPath(env, ".gpg"), sp, dp)
 		rm1()
 		rm2()
 		if (gerr == nil) != (err == nil) {
@@ -730,6 +742,70 @@ func checkC10(env *engine.Env, ci any) engine.Outcome {
 				return out
 			}
 			sigm["key_file"] = lp
+		}
+		if strings.HasPrefix(key.file, "GEN2SUB:") {
+			ent, err := privEntity(env)
+			if err != nil {
+				out.HarnessError = err.Error()
+				return out
+			}
+			t1 := time.Date(2021, 1, 2, 3, 4, 5, 0, time.UTC)
+			t2 := time.Date(2022, 6, 7, 8, 9, 10, 0, time.UTC)
+			n0 := len(ent.Subkeys)
+			for _, tt := range []time.Time{t1, t2} {
+				tt := tt
+				if err := ent.AddSigningSubkey(&packet.Config{Time: func() time.Time { return tt }, Algorithm: packet.PubKeyAlgoRSA, RSABits: 2048, DefaultHash: crypto.SHA256}); err != nil {
+					out.HarnessError = "cannot add a signing subkey: " + err.Error()
+					return out
+				}
+			}
+			older, newer := ent.Subkeys[n0], ent.Subkeys[n0+1]
+			pick := older
+			if strings.HasSuffix(key.file, ":newer") {
+				pick = newer
+			}
+			key.keyID = fmt.Sprintf("%016x", pick.PublicKey.KeyId)
+			// the public keyring for the verifiers, then the private keys locked with the passphrase
+			base := filepath.Join(env.Scratch, "gen-two-signing-subkeys-"+strings.TrimPrefix(key.file, "GEN2SUB:"))
+			var pb, pa, kb bytes.Buffer
+			if err := ent.Serialize(&pb); err != nil {
+				out.HarnessError = "cannot write the generated public key: " + err.Error()
+				return out
+			}
+			if aw, err := armor.Encode(&pa, openpgp.PublicKeyType, nil); err == nil {
+				aw.Write(pb.Bytes())
+				aw.Close()
+			}
+			os.WriteFile(base+"-pub.gpg", pb.Bytes(), 0o644)
+			os.WriteFile(base+"-pub.asc", pa.Bytes(), 0o644)
+			pass := []byte(key.givePass)
+			if err := ent.PrivateKey.Encrypt(pass); err != nil {
+				out.HarnessError = "cannot lock the generated key: " + err.Error()
+				return out
+			}
+			for i := range ent.Subkeys {
+				if ent.Subkeys[i].PrivateKey != nil {
+					if err := ent.Subkeys[i].PrivateKey.Encrypt(pass); err != nil {
+						out.HarnessError = "cannot lock a generated subkey: " + err.Error()
+						return out
+					}
+				}
+			}
+			aw, err := armor.Encode(&kb, openpgp.PrivateKeyType, nil)
+			if err == nil {
+				err = ent.SerializePrivateWithoutSigning(aw, nil)
+				aw.Close()
+			}
+			if err != nil {
+				out.HarnessError = "cannot write the generated key: " + err.Error()
+				return out
+			}
+			if err := os.WriteFile(base+".asc", kb.Bytes(), 0o600); err != nil {
+				out.HarnessError = err.Error()
+				return out
+			}
+			sigm["key_file"] = base + ".asc"
+			c10PubName = base + "-pub"
 		}
 		if strings.HasPrefix(key.file, "GENSUB:") {
 			// the unprotected test key with one more subkey: an encryption subkey that expired years ago (rotated out).
@@ -1057,7 +1133,7 @@ func checkC10(env *engine.Env, ci any) engine.Outcome {
 		// second opinion (only for signatures nfpm made itself; a callback's signature is the harness's own)
 		if gpgv := env.Tool("gpgv"); gpgv != "" && c.Via == "file" {
 			sp, rm := tmpFile(env, "c10.clearsig", pkg.SigBlob)
-			gerr := gpgvGood(gpgv, "--keyring", keyPath(env, c10PubName+".gpg"), sp)
+			gerr := gpgvGood(gpgv, "--keyring", c10PubPath(env, ".gpg"), sp)
 			rm()
 			if (gerr == nil) != (verr == nil) {
 				return harness(fmt.Sprintf("go-crypto (%v) and gpgv (%v) disagree on the clear-signed manifest", verr, gerr))
